@@ -72,8 +72,24 @@ def check_cvc5(smt2, timeout_ms):
 def discharge(ob, axioms, budget, use_cvc5=True, seed=0, both=False):
     """-> Result for a normal (expect unsat) obligation in PROOF mode.  A `sat` here is not trusted as a
     refutation when quantifiers are present (it goes to the finitised mode); it is reported as 'sat?'."""
-    r, dt, s = check_z3(ob, axioms, budget['z3_ms'], seed)
     backend = 'z3-%s' % z3.get_version_string()
+    # attempt 0: the quantifier-free slice of the path condition (sound: fewer assumptions).  Nonlinear steps that z3
+    # leaves `unknown` next to quantifiers are decided at once by nlsat on the ground slice.
+    from .core import _has_quantifier
+    ground = [p for p in ob.pc if not _has_quantifier(p)]
+    if len(ground) < len(ob.pc) and not _has_quantifier(ob.goal):
+        s0 = z3.Solver()
+        s0.set('timeout', min(3000, int(budget['z3_ms'])))
+        s0.set('random_seed', int(seed))
+        for p in ground:
+            s0.add(p)
+        s0.add(z3.Not(ob.goal))
+        t0 = time.time()
+        r0 = s0.check()
+        if r0 == z3.unsat and not both:
+            return Result(name=ob.name, kind=ob.kind, verdict='discharged', backend=backend + '(ground slice)', seconds=round(time.time() - t0, 4),
+                          note=ob.note, reason=None, expect=ob.expect, func=ob.func)
+    r, dt, s = check_z3(ob, axioms, budget['z3_ms'], seed)
     verdict, reason = None, None
     if r == z3.unsat:
         verdict = 'discharged'
